@@ -81,7 +81,7 @@ CHECKS = {
              "(schedule not owned by the harness). non-trivial = a burst of >= 2 notifications in >= 2 different states",
         assumptions=["a notification repeating the membership in effect is filtered by the publishers (IsChanged) - checked with the publishers in C10",
                      "placements inside the delay are trusted only if the follower really arrived before the reopen began (else discarded_timing)"],
-        units=[rapid("TestC11_Rebalance", 1, 1, 4, 16), plain("TestC11_Stress"), plain("TestC11_Fixed"), rapid("TestC11_ReopenHistory", 600, 40000), rapid("TestC11_FollowMembership", 200, 6000, 8, 16), rapid("TestC11_CouchbaseSwap", 1, 1, 2, 8)],
+        units=[rapid("TestC11_Rebalance", 1, 1, 4, 16), plain("TestC11_Stress"), plain("TestC11_Fixed"), rapid("TestC11_ReopenHistory", 600, 40000), rapid("TestC11_FollowMembership", 200, 6000, 8, 16), rapid("TestC11_LeaderHandover", 200, 6000, 4, 16), rapid("TestC11_CouchbaseSwap", 1, 1, 2, 8)],
     ),
     "C13": dict(
         level="fault_enumeration",
